@@ -460,6 +460,14 @@ def _r3(name):
 ORACLES.update({k: _r3(k) for k in ('declared', 'builtin', 'pool', 'infect')})
 
 
+def _zoo(a):
+    from harness.props import c16_zoo
+    return c16_zoo.o_zoo(a, sys.modules[__name__])
+
+
+ORACLES['zoo'] = _zoo
+
+
 def run_oracle(ctx, name, args):
     try:
         fails = ORACLES[name](args)
@@ -495,6 +503,8 @@ def search(ctx):
     r2.search(ctx, sys.modules[__name__], run_oracle)
     from harness.props import c16_round3 as r3
     r3.search(ctx, sys.modules[__name__], run_oracle)
+    from harness.props import c16_zoo
+    c16_zoo.search(ctx, sys.modules[__name__])
     run_oracle(ctx, 'events', dict(kind='births', dts=[1.0, 0.5, 0.2], seed=rng.randint(1, 10 ** 6)))
     run_oracle(ctx, 'events', dict(kind='deaths', dts=[0.5], seed=rng.randint(1, 10 ** 6)))
     for k in ctx.known:
